@@ -27,6 +27,8 @@ pub enum StepIn {
     Noop,
     /// a valid event with a payload of n bytes (the app treats it like Noop)
     Big { n: u32 },
+    /// AppTester only: hand the event with this stamp, which an earlier call returned, back through `update`
+    Feed { o: [u32; 3] },
     Resolve { o: [u32; 3], val: u32, #[serde(default)] nt: bool },
     Drop { o: [u32; 3], #[serde(default)] nt: bool },
     Abort { c: [u32; 2], #[serde(default)] nt: bool },
@@ -119,6 +121,9 @@ pub trait Host {
     fn resolve(&mut self, o: [u32; 3], val: u32) -> Option<Obs>;
     /// a valid event carrying n bytes
     fn big(&mut self, _n: u32) -> Option<Obs> {
+        None
+    }
+    fn feed(&mut self, _o: [u32; 3]) -> Option<Obs> {
         None
     }
     /// bridge only: the id this notification went out under is in the registry right now, so a (wrong)
@@ -473,6 +478,13 @@ impl TesterHost {
 }
 
 impl Host for TesterHost {
+    fn feed(&mut self, o: [u32; 3]) -> Option<Obs> {
+        let k = self.pending.iter().position(|e| matches!(e, Event::Em { o: x, .. } if *x == o))?;
+        let ev = self.pending.remove(k)?;
+        let evj = ev_json(&ev);
+        let upd = self.tester.update(ev, &mut self.model);
+        Some(self.obs(json!({"e":"event","ev":evj}), upd))
+    }
     fn run(&mut self, p: u32) -> Obs {
         let upd = self.tester.update(Event::Run(p), &mut self.model);
         self.obs(json!({"e":"event","ev":{"kind":"run","p":p}}), upd)
@@ -890,6 +902,7 @@ pub fn run_case(case: &Case) -> Vec<Value> {
             StepIn::Run { p } => Some(host.run(*p)),
             StepIn::Noop => host.noop(),
             StepIn::Big { n } => host.big(*n),
+            StepIn::Feed { o } => host.feed(*o),
             StepIn::Resolve { o, val, nt } => {
                 if *nt {
                     host.set_notake(true);
